@@ -117,6 +117,12 @@ func (f *frame) eval(e ast.Expr) *T {
 			if v, ok := constant.Int64Val(tv.Value); ok {
 				return tConst(v)
 			}
+		case constant.Float:
+			if iv := constant.ToInt(tv.Value); iv.Kind() == constant.Int {
+				if v, ok := constant.Int64Val(iv); ok {
+					return tConst(v)
+				}
+			}
 		case constant.Bool:
 			return mk("k", tv.Value.String())
 		case constant.String:
